@@ -75,7 +75,7 @@ def run(tier, runner):
         pairs += [(p, bn[p.unit.name]) for p in base[a] if p.unit.name in bn]
     r_eff = config.effect_diff(pairs, '(containers)')
     allp = [p for s in stds for p in base[s]] + ped + ndb
-    r_ret = config.returns(allp)
+    r_ret = config.returns(allp + matrix.real_programs(runner, tier))
     w = detection_witnesses()
     cfgs = [(s, True, False) for s in stds] + [(s, False, False) for s in stds]
     r_w = witness.run_witnesses(runner, w, cfgs, ['clang++'] if tier == 'quick' else ['clang++', 'g++'],
